@@ -41,19 +41,20 @@ var c08Metrics = sync.OnceValue(func() *metricstorage.MetricStorage {
 var g4CmGVR = schema.GroupVersionResource{Group: "", Version: "v1", Resource: "configmaps"}
 
 type c08Env struct {
-	c       *Case
-	fc      *fake.Cluster
-	ns      string
-	inf     *kem.VerifInformerC08
-	jq      string
-	mu      sync.Mutex
-	events  []kemtypes.KubeEvent
-	ids     *Interner
-	cks     g4CkInterner
-	states  map[string]map[string]any // name -> last delivered state
-	hide    string                    // name of the marker object (cluster mode), never shown
-	loadErr bool                      // createSharedInformer failed (the filter fails on a listed object)
-	cancel  context.CancelFunc
+	c        *Case
+	fc       *fake.Cluster
+	ns       string
+	inf      *kem.VerifInformerC08
+	jq       string
+	nDeletes int
+	mu       sync.Mutex
+	events   []kemtypes.KubeEvent
+	ids      *Interner
+	cks      g4CkInterner
+	states   map[string]map[string]any // name -> last delivered state
+	hide     string                    // name of the marker object (cluster mode), never shown
+	loadErr  bool                      // createSharedInformer failed (the filter fails on a listed object)
+	cancel   context.CancelFunc
 }
 
 func (e *c08Env) takeEvents() []kemtypes.KubeEvent {
@@ -235,7 +236,14 @@ func (e *c08Env) deliver(t kemtypes.WatchEventType, name string, obj map[string]
 	case kemtypes.WatchEventModified:
 		e.inf.OnUpdate(u)
 	case kemtypes.WatchEventDeleted:
-		e.inf.OnDelete(u)
+		// every other delete arrives the way client-go reports a delete it learned about on a relist:
+		// the last known state inside a DeletedFinalStateUnknown value
+		e.nDeletes++
+		if e.nDeletes%2 == 0 {
+			e.inf.OnDeleteTombstone(u.GetNamespace()+"/"+u.GetName(), u)
+		} else {
+			e.inf.OnDelete(u)
+		}
 	}
 	e.record(t, name, obj, e.takeEvents())
 }
